@@ -89,6 +89,7 @@ type Exec struct {
 	fbQueries, fbDecided int
 	fbTime    time.Duration
 	pools     map[*Value][]Value
+	syncMaps  map[*Value]*Map
 	roundings [][2]string
 	defCache  map[string]string
 	radixDerived int
@@ -1536,6 +1537,27 @@ func (e *Exec) mapFind(m *Map, key Value) int {
 		}
 	}
 	return -1
+}
+
+func (e *Exec) syncMapOf(recv Value) *Map {
+	p := recv.(*Value)
+	m := e.syncMaps[p]
+	if m == nil {
+		m = &Map{idx: map[interface{}]int{}}
+		e.syncMaps[p] = m
+	}
+	return m
+}
+
+func (e *Exec) syncMapStore(recv, key, val Value) {
+	if e.checkFrz && e.frozen[recv.(*Value)] {
+		e.check(Bool{C: false}, "assert", "store to package-level state", "store into a sync.Map reachable from a package-level variable")
+	}
+	m := e.syncMapOf(recv)
+	saved := e.checkFrz
+	e.checkFrz = false
+	e.mapSet(m, key, val)
+	e.checkFrz = saved
 }
 
 func (e *Exec) mapSet(m *Map, key, val Value) {
